@@ -193,7 +193,7 @@ def _verdict(forest, prop):
     return sorted(set(viol)), sorted(set(unk))
 
 
-class _Timeout(Exception):
+class _Timeout(BaseException):     # not an Exception: no handler of the analysed-code interpreter may swallow it
     pass
 
 
